@@ -178,6 +178,19 @@ class DataSelection(Scenario):
             cx.prove(cm is not None and shape(cm) == (m,) and And([Iff(a, b) for a, b in zip(elems(cm), cell_in)]),
                      "cell data mask == cells whose vertices all qualify", "data mask exact")
             cx.observe("vmask", [bool(x) if cx.mode != "sym" else x for x in elems(vm)] if vm is not None else None)
+            # data-level extent copy onto the same parent: kept entries stay on their cells / vertices, the others are blanked
+            for data, n_, sel, src, tag in ((cd, m, cell_in, CD, "cell"), (vd, n, qual, D, "vertex")):
+                cp = data.copy_from_extent(ext, inverse=inverse)
+                if cp is None:
+                    continue
+                cv = elems(cp.values)
+                cx.prove(len(cv) == n_, f"{tag} data copy has one entry per {tag}", "data copy")
+                if len(cv) == n_:
+                    for q in range(n_):
+                        if is_nan(cv[q]):
+                            cx.prove(Not(sel[q]), f"{tag} {q} blanked only when not selected", "data copy")
+                        else:
+                            cx.prove(And(sel[q], eq(cv[q], src[q])), f"{tag} {q} keeps its own value iff selected", "data copy")
             return "ok"
 
 
@@ -244,8 +257,26 @@ class GridSelection(Scenario):
                 me = elems(mask)
                 cx.prove(shape(mask) == (nu * nv,) and And([Iff(me[q], qual[q]) for q in range(nu * nv)]),
                          "cell-centre mask == closed-box predicate", "mask exact")
-            if inverse or not self.params.get("copy", True):
+            if not self.params.get("copy", True):
                 return "mask only"
+            if inverse:
+                # the inverse copy keeps the grid and blanks the cells inside the box
+                new = g.copy_from_extent(ext, inverse=True)
+                if new is None:
+                    cx.prove(Or(miss, Not(Or(qual))), "inverse copy: None only if the box misses the bounding box or nothing "
+                                                      "qualifies", "None only when allowed")
+                    return "none"
+                cx.prove(And(eq(new.u_count, nu), eq(new.v_count, nv)), "inverse copy keeps the grid", "inverse copy")
+                kids = [k for k in new.children if getattr(k, "name", None) == "gd"]
+                cx.prove(len(kids) == 1 and shape(kids[0].values) == (nu * nv,), "inverse copy: one value per cell", "inverse copy")
+                if len(kids) == 1 and shape(kids[0].values) == (nu * nv,):
+                    vals = elems(kids[0].values)
+                    for q in range(nu * nv):
+                        if is_nan(vals[q]):
+                            cx.prove(Not(qual[q]), f"cell {q} blanked only when it is not selected", "inverse copy")
+                        else:
+                            cx.prove(And(qual[q], eq(vals[q], D[q])), f"cell {q} keeps its own value iff selected", "inverse copy")
+                return "ok"
             col = [Or([qual[i + j * nu] for j in range(nv)]) for i in range(nu)]
             row = [Or([qual[i + j * nu] for i in range(nu)]) for j in range(nv)]
             # known finding F-C13-1: the selected columns / rows are not contiguous (rotated grids only)
